@@ -70,6 +70,7 @@ Definition ev_eqb (a b : ev) : bool :=
   | EStoppedRun, EStoppedRun => true
   | EOut u i v, EOut u' i' v' => Bool.eqb u u' && Nat.eqb i i' && (v =? v')
   | EError, EError => true
+  | ECrash, ECrash => true
   | EClock s d b a, EClock s' d' b' a' => sys_eqb s s' && (d =? d') && list_eqb Z.eqb b b' && list_eqb Z.eqb a a'
   | _, _ => false
   end.
